@@ -501,10 +501,12 @@ def allowedReaders : List String := [
   "crypto/vault:Vault.SignPartial",            -- threshold-signs a beacon digest: output is a partial signature
   "internal/core:BeaconProcess.joinNetwork",   -- hands dkgOutput.New.KeyShare to storeDKGOutput / the beacon handler
   "internal/core:BeaconProcess.transitionToNext", -- same, for a reshare
+  "internal/core:DrandDaemon.reconcileKeyFiles", -- (reconciling start-up only) hands the record's KeyShare to store.SaveShare = Save(secure=true); what it compares is share.Public(), the commitments
   "internal/dkg:DBState.Complete",             -- stores the handle of the new share in the state
   "internal/dkg:DBState.Equals",               -- reflect.DeepEqual of two states, result is a Bool
   "internal/dkg:DBState.TOML",                 -- serialises the state for dkg.db
   "internal/dkg:DBStateTOML.FromTOML",         -- parses a dkg.db entry (inbound)
+  "internal/dkg:Process.LastCompleted",        -- (reconciling start-up only) hands the KeyShare handle of the finished record to the daemon's start-up path
   "internal/dkg:Process.executeAndFinishDKG",  -- passes output.KeyShare to DBState.Complete
   "internal/dkg:Process.initialDKGConfig",     -- gives the long-term key to kyber's dkg.Config.Longterm
   "internal/dkg:Process.reshareDKGConfig",     -- gives long-term key and previous share to kyber's dkg.Config
@@ -513,5 +515,9 @@ def allowedReaders : List String := [
   "internal/dkg:justifToProto",                -- kyber Justification.Share: a dealer's revealed sub-share, public by protocol
   "internal/dkg:protoToJustif"                 -- the inbound direction of the same wire field
 ]
+
+/-- the readers that exist only on a tree whose start-up path reconciles the key files with the completed DKG record
+(reports/crash2_fix_1.diff; `Gen.startupVariant`, C13) -/
+def reconcileReaders : List String := ["internal/core:DrandDaemon.reconcileKeyFiles", "internal/dkg:Process.LastCompleted"]
 
 end Drand.Secrecy
